@@ -27,8 +27,11 @@ OB == ObsOf(Tr.b)
 OC == ObsOf(Tr.c)
 AllOk == Tr.a.status = "ok" /\ Tr.b.status = "ok" /\ Tr.c.status = "ok" /\ Tr.a.parse = "ok" /\ Tr.b.parse = "ok" /\ Tr.c.parse = "ok"
 
+AllRan == Tr.a.status = "ok" /\ Tr.b.status = "ok" /\ Tr.c.status = "ok"
+SomeParsed == Tr.a.parse = "ok" \/ Tr.b.parse = "ok" \/ Tr.c.parse = "ok"
 Clauses ==
-  IF ~AllOk THEN {"SKIP.crashed"}
+  IF AllRan /\ ~AllOk /\ SomeParsed THEN {Tr.prop \o ".unparseable"}     \* one output of the related runs is not even a schema
+  ELSE IF ~AllOk THEN {"SKIP.crashed"}
   ELSE CASE Tr.rel = "same" -> R!Same(Tr.prop, Tr.how, OA, OB)
          [] Tr.rel = "thr" -> R!Thr(OA, OB)
          [] Tr.rel = "present" -> R!Present(OA, OB)
@@ -41,5 +44,5 @@ Clauses ==
 Init == tid \in 1..Len(Traces)
 Next == UNCHANGED tid
 Spec == Init /\ [][Next]_tid
-Report == PrintT(<<"VERDICT", Tr.id, Clauses, [ties |-> Cardinality(R!A!TieGroups)]>>)
+Report == PrintT(<<"VERDICT", Tr.id, Clauses, [ties |-> IF Tr.rel \in {"same", "inverse"} THEN Cardinality(R!A!TieGroups) ELSE 0]>>)
 =============================================================================
